@@ -38,6 +38,20 @@ FAMILIES = {
         'thorough': dict(consts=dict(N=4, MaxKids=3, MinHi=1, Axes={'fcard'}, FCards={(0, 1), (2, 3), (1, -1)}),
                          invariants=tlc.GEN_INVARIANTS),
     },
+    # constraint trees: all of depth <= 2 over three names, plus arithmetic/aggregate shapes
+    'Ast': {
+        'quick':    dict(module='FMAstGen', consts=dict(ANames={'f1', 'f2', 'f3'}, BinOps=LOGIC_BIN, Depth=2, GrowSteps=0, WithArith=True),
+                         invariants=['L8_Forms', 'L_Shape'], defaults=False),
+        'thorough': dict(module='FMAstGen', consts=dict(ANames={'f1', 'f2', 'f3'}, BinOps=LOGIC_BIN, Depth=2, GrowSteps=0, WithArith=True),
+                         invariants=['L8_Forms', 'L_Shape'], defaults=False),
+    },
+    # random deeper trees (simulation)
+    'AstDeep': {
+        'quick':    dict(module='FMAstGen', consts=dict(ANames={'f1', 'f2', 'f3'}, BinOps=LOGIC_BIN, Depth=1, GrowSteps=2, WithArith=False),
+                         invariants=['L_Shape'], defaults=False, simulate=dict(num=300, depth=3)),
+        'thorough': dict(module='FMAstGen', consts=dict(ANames={'f1', 'f2', 'f3', 'f4'}, BinOps=LOGIC_BIN, Depth=1, GrowSteps=2, WithArith=False),
+                         invariants=['L_Shape'], defaults=False, simulate=dict(num=5000, depth=3)),
+    },
 }
 
 _cache = {}
@@ -48,7 +62,8 @@ def generate(fam, tier, seed, workdir):
     if key in _cache:
         return _cache[key]
     spec = FAMILIES[fam][tier]
-    cases, st = tlc.run_generator(workdir, spec['consts'], invariants=spec.get('invariants', ()),
+    cases, st = tlc.run_generator(workdir, spec['consts'], module=spec.get('module', 'FM'),
+                                  defaults=spec.get('defaults', True), invariants=spec.get('invariants', ()),
                                   simulate=spec.get('simulate'), seed=seed,
                                   constraint=spec.get('constraint'), extra_defs=spec.get('extra_defs', ''))
     _cache[key] = (cases, st)
